@@ -37,7 +37,13 @@ try:
     os.remove(demo_dst)
     rc, out = sh('git apply --whitespace=nowarn %s' % os.path.join(d, 'patch.diff'), cwd=wt)
     res['applies'] = rc == 0
-    rc, out = sh('go build ./... && go test -vet=off -count=1 ./...', cwd=wt)
+    for attempt in range(3):      # TestAutoDiscover* use a fixed port: a concurrent suite run elsewhere makes them fail; re-run
+        rc, out = sh('go build ./... && go test -vet=off -count=1 ./...', cwd=wt)
+        if rc == 0 or 'internal/driver' not in out or 'pkg/llrp\t' in [l.split('ok  \t')[-1] for l in []]:
+            break
+        fails = [l for l in out.split('\n') if l.startswith('FAIL\t')]
+        if not (len(fails) == 1 and 'internal/driver' in fails[0] and '59923' in out):
+            break
     res['suite_with_patch'] = 'pass' if rc == 0 else 'FAIL'
     if rc != 0:
         res['suite_out'] = out[-1500:]
